@@ -132,6 +132,20 @@ def gcp_opt(  # noqa:  PLR0912,PLR0913
     return result, M0, info
 
 
+def _check_initial_guess(
+    data: Union[ttb.tensor, ttb.sptensor], rank: int, guess: ttb.ktensor
+):
+    """Reject an initial guess that does not fit the data or the requested rank."""
+    if guess.shape != data.shape:
+        raise ValueError(
+            f"Initial guess has shape {guess.shape} but the data {data.shape}"
+        )
+    if guess.ncomponents != rank:
+        raise ValueError(
+            f"Initial guess has {guess.ncomponents} components but rank is {rank}"
+        )
+
+
 def _get_initial_guess(
     data: Union[ttb.tensor, ttb.sptensor],
     rank: int,
@@ -145,8 +159,11 @@ def _get_initial_guess(
     """
     # TODO might be nice to merge with ALS/other CP methods
     if isinstance(init, Sequence) and not isinstance(init, str):
-        return ttb.ktensor(init).normalize("all")
+        M0 = ttb.ktensor(init)
+        _check_initial_guess(data, rank, M0)
+        return M0.normalize("all")
     if isinstance(init, ttb.ktensor):
+        _check_initial_guess(data, rank, init)
         init.normalize("all")
         return init
     if init == "random":
